@@ -161,21 +161,84 @@ func (g *Gen) pickAliveWhere(ok func(e EID, st *MEnt) bool) (EID, bool) {
 	return 0, false
 }
 
+// recycledTwin returns the alive entity that carries the same entity ID as the dead entity d, if any.
+func (g *Gen) recycledTwin(d EID) (EID, bool) {
+	if int(d) >= len(g.M.HID) || g.M.HID[d] == 0 {
+		return 0, false
+	}
+	for i := len(g.M.Ents) - 1; i >= g.M.Epoch0; i-- {
+		if g.M.Ents[i].Alive && i < len(g.M.HID) && g.M.HID[i] == g.M.HID[d] {
+			return EID(i), true
+		}
+	}
+	return 0, false
+}
+
+// staleTwinFor returns, for relation comp c, an alive entity whose ID was previously held by a dead entity that a
+// standing filter still names as fixed target of c (or that was a target recently): the "recycled ID" hazard.
+func (g *Gen) staleTwinFor(c int) (EID, bool) {
+	for i := range g.M.Filters {
+		f := &g.M.Filters[i]
+		if !f.Used {
+			continue
+		}
+		for _, r := range f.Spec.Rels {
+			if r.C == c && r.T != ZeroE && !g.M.Ents[r.T].Alive {
+				if t, ok := g.recycledTwin(r.T); ok {
+					return t, true
+				}
+			}
+		}
+	}
+	return 0, false
+}
+
+// recycledAlive picks an alive entity whose ID had an earlier incarnation in this epoch.
+func (g *Gen) recycledAlive() (EID, bool) {
+	seen := map[uint32]bool{}
+	var cands []EID
+	for i := g.M.Epoch0; i < len(g.M.Ents) && i < len(g.M.HID); i++ {
+		if !g.M.Ents[i].Alive {
+			seen[g.M.HID[i]] = true
+		}
+	}
+	for i := g.M.Epoch0; i < len(g.M.Ents) && i < len(g.M.HID); i++ {
+		if g.M.Ents[i].Alive && seen[g.M.HID[i]] {
+			cands = append(cands, EID(i))
+		}
+	}
+	if len(cands) == 0 {
+		return 0, false
+	}
+	return cands[g.R.Intn(len(cands))], true
+}
+
 // target picks a relation target: zero, or an alive entity (biased to a small pool).
 func (g *Gen) target(not EID) EID {
 	if g.R.Chance(12) {
 		return ZeroE
+	}
+	if g.R.Chance(12) {
+		if t, ok := g.recycledAlive(); ok && t != not {
+			return t
+		}
 	}
 	a := g.alive()
 	if len(a) == 0 {
 		return ZeroE
 	}
 	n := len(a)
-	if g.P.TargetPool > 0 && n > g.P.TargetPool && g.R.Chance(80) {
-		n = g.P.TargetPool
+	lo := 0
+	if g.P.TargetPool > 0 && n > g.P.TargetPool {
+		switch x := g.R.Intn(100); {
+		case x < 60:
+			n = g.P.TargetPool // long-lived targets shared by many children
+		case x < 85:
+			lo = n - g.P.TargetPool // the youngest entities: these carry recycled IDs
+		}
 	}
 	for k := 0; k < 4; k++ {
-		t := a[g.R.Intn(n)]
+		t := a[lo+g.R.Intn(n-lo)]
 		if t != not {
 			return t
 		}
@@ -187,7 +250,13 @@ func (g *Gen) relsFor(cs []int, not EID) []RelT {
 	var r []RelT
 	for _, c := range cs {
 		if u.Types[c].IsRel {
-			r = append(r, RelT{C: c, T: g.target(not)})
+			t := g.target(not)
+			if g.R.Chance(25) {
+				if tw, ok := g.staleTwinFor(c); ok && tw != not {
+					t = tw
+				}
+			}
+			r = append(r, RelT{C: c, T: t})
 		}
 	}
 	// relation arguments may come in any order
